@@ -203,9 +203,17 @@ class Executor:
                 base = self._const_value(v.args[0])
                 return _simp(base + self._gep_offset(v.extra, [self._const_value(a) for a in v.args[1:]],
                                                      [a.ty for a in v.args[1:]]))
-            if v.op in ("bitcast", "ptrtoint", "inttoptr"):
+            if v.op in ("bitcast", "ptrtoint", "inttoptr", "trunc", "zext"):
                 x = self._const_value(v.args[0])
-                return self._resize(x, self._bits(v.ty))
+                return _simp(self._resize(x, self._bits(v.ty)))
+            if v.op == "sext":
+                x = self._const_value(v.args[0])
+                return _simp(z3.SignExt(self._bits(v.ty) - x.size(), x))
+            if v.op in ("add", "sub", "mul", "and", "or", "xor", "shl", "lshr"):
+                a, b = self._const_value(v.args[0]), self._const_value(v.args[1])
+                f = {"add": lambda: a + b, "sub": lambda: a - b, "mul": lambda: a * b, "and": lambda: a & b,
+                     "or": lambda: a | b, "xor": lambda: a ^ b, "shl": lambda: a << b, "lshr": lambda: z3.LShR(a, b)}[v.op]
+                return _simp(f())
             raise NotEncoded("constant expression %s" % v.op)
         if isinstance(v, Aggregate):
             return tuple(self._const_value(e) for e in v.elems)
@@ -775,6 +783,16 @@ class Executor:
                 nar = {"add": a + b, "sub": a - b, "mul": a * b}[o]
                 env[ins.res] = (_simp(nar), _simp(wide != ext(n, nar)))
                 return True
+        if name.startswith("llvm.load.relative."):
+            # relative lookup table: ptr + sext(load i32, ptr + offset)
+            p, off = A(0), A(1)
+            if off.size() < 64:
+                off = z3.SignExt(64 - off.size(), off)
+            a = _simp(p + off)
+            self._access(res, site, st, a, 4, 4, write=False)
+            rel = self._load(st.mem, a, 4)
+            env[ins.res] = _simp(p + z3.SignExt(32, rel))
+            return True
         if name in ("llvm.ubsantrap", "llvm.trap", "llvm.debugtrap"):
             detail = "ubsantrap"
             if ins.args and isinstance(ins.args[0], Const):
